@@ -197,7 +197,7 @@ func c15Run(c *Ctx) {
 							GoTest: fmt.Sprintf("_, err := spdxexp.ExtractLicenses(%q) // %q is at offset %d", s, bad.tok, at)})
 					}
 					// the same string as an allowed-list entry, after entries that make the scanner rewrite its buffer
-					if len(prefix) <= 4 && rn == "loose" {
+					if len(prefix) <= 4 && (rn == "loose" || (rn == "padded" && len(prefix) <= 2)) {
 						for _, before := range c15Before {
 							al := append(append([]string{}, before...), s)
 							cs2 := c15Case{S: s, Bad: bad.tok, Kind: bad.kind, At: at, Allowed: al, Index: len(before)}
